@@ -131,6 +131,17 @@ def dispatch(rp, s, op):
                     d['pilot'] = pname(t['pilot'])
                 tasks.append(d)
             s.work(tasks)
+        elif op['op'] == 'mixed_states':
+            # ONE notification that names pilots and tasks (the state channel carries both kinds of things)
+            inv = {v: k for k, v in rps._task_state_values.items() if k not in ('FAILED', 'CANCELED')}
+            arg = []
+            for x in op['things']:
+                if 'pid' in x:
+                    arg.append({'type': 'pilot', 'uid': pname(x['pid']), 'state': x['state']})
+                else:
+                    arg.append({'uid': tname(x['uid']), 'type': 'task', 'state': inv[x['sv']], 'pilot': pname(x['pilot']),
+                                'description': {'ranks': x['cores'], 'cores_per_rank': 1}})
+            s._base_state_cb('state', {'cmd': 'update', 'arg': arg})
         elif op['op'] == 'task_states':
             inv = {v: k for k, v in rps._task_state_values.items() if k not in ('FAILED', 'CANCELED')}
             arg = []
@@ -291,6 +302,62 @@ def bulk_states_part(ctx, rp):
                    what='Backfilling, one state notification naming several pilots (model bfPilotStates): forwards, wait pool, pilot table')
     ctx.obligation('Backfilling: one state notification naming several pilots (every combination and order of 2-3 pilots entering / missing / leaving '
                    'the window): no task keeps waiting while an eligible pilot has room (%d notifications)' % n, 'tie', True, '')
+
+
+def mixed_ops(pstate, first, second_pilot):
+    ops = [{'op': 'add', 'pids': [0], 'cores': [2], 'stale': 0}, {'op': 'pilot_state', 'pid': 0, 'state': 'PMGR_ACTIVE'},
+           {'op': 'work', 'tasks': [{'uid': u, 'cores': 1, 'pilot': None} for u in range(6)]}]
+    things = [{'pid': 0, 'state': pstate}, {'uid': 0, 'pilot': 0, 'sv': 13, 'cores': 1}]
+    if first == 'task': things.reverse()
+    ops.append({'op': 'mixed_states', 'things': things})
+    if second_pilot:
+        ops += [{'op': 'add', 'pids': [1], 'cores': [4], 'stale': 0}, {'op': 'pilot_state', 'pid': 1, 'state': 'PMGR_ACTIVE'}]
+    return ops
+
+
+def run_mixed(rp, ops):
+    s = make_sched(rp, 'bf')
+    res = []
+    for op in ops:
+        outs, err, _ = apply_op(rp, s, 'bf', op)
+        res.append({'outs': outs, 'err': err, 'state': snapshot(s, 'bf')})
+    return res
+
+
+def mixed_part(ctx, rp):
+    """Backfilling: a pilot at its high-water mark with tasks waiting; ONE notification reports the pilot final (or still
+    active) AND one of its tasks past execution.  The pass the finished task triggers must see the pilot as the
+    notification reports it: no waiting task is bound to a pilot the scheduler has just been told is final."""
+    n = 0
+    for pstate in ('DONE', 'FAILED', 'CANCELED', 'PMGR_ACTIVE'):
+        for first in ('pilot', 'task'):
+            for second_pilot in (False, True):
+                ops = mixed_ops(pstate, first, second_pilot)
+                res = run_mixed(rp, ops)
+                n += 1
+                ctx.case({'mixed': [pstate, first, second_pilot]}, nontrivial=pstate != 'PMGR_ACTIVE')
+                inp = {'kind': 'bf', 'mixed': {'pstate': pstate, 'first': first, 'second_pilot': second_pilot}}
+                bad = mixed_monitor(pstate, second_pilot, res)
+                if bad: ctx.fail(bad[0], bad[1], inp)
+    ctx.obligation('Backfilling: one notification reporting a pilot final and one of its tasks finished: no waiting task is bound to the '
+                   'final pilot, the waiting tasks go to a pilot added later (%d notifications)' % n, 'tie', True, '')
+
+
+def mixed_monitor(pstate, second_pilot, res):
+    if any(r['err'] for r in res):
+        return ('mixed-notification:raises', str([r['err'] for r in res]))
+    at = 3
+    fw = [o for o in res[at]['outs'] if o[0] == 'fwd']
+    if pstate != 'PMGR_ACTIVE' and fw:
+        return ('mixed-notification:task-bound-to-a-pilot-reported-final',
+                'the notification reports pilot 0 %s and task 0 finished; forwarded on it: %s' % (pstate, fw))
+    if pstate == 'PMGR_ACTIVE' and len(fw) != 1:
+        return ('mixed-notification:freed-capacity-not-used', 'pilot 0 stays active, task 0 finished, forwarded: %s' % fw)
+    if second_pilot and pstate != 'PMGR_ACTIVE':
+        late = [o for r in res[at + 1:] for o in r['outs'] if o[0] == 'fwd']
+        if sorted(o[1] for o in late) != [4, 5] or any(o[2] != 1 for o in late):
+            return ('mixed-notification:waiting-tasks-not-bound-to-the-pilot-added-later', 'forwarded after pilot 1 became active: %s' % late)
+    return None
 
 
 def overlap_part(ctx, rp):
@@ -547,6 +614,7 @@ def run(ctx):
                             ('RoundRobin' if kind == 'rr' else 'Backfilling'))
     overlap_part(ctx, rp)
     bulk_states_part(ctx, rp)
+    mixed_part(ctx, rp)
     ctx.extra['distribution'] = dist
     ctx.rule = ('random scripts of 3-14 atomic callbacks over 1-4 pilots: add (1-2 pilots, sometimes already added), remove, '
                 'pilot state notifications (any state, any order), submissions of 1-6 tasks (25% naming a pilot, known or not), '
@@ -561,6 +629,12 @@ def run(ctx):
 def replay(ctx, data):
     rp = rpload.load()
     i  = data['input']
+    if i.get('mixed'):
+        m = i['mixed']
+        res = run_mixed(rp, mixed_ops(m['pstate'], m['first'], m['second_pilot']))
+        bad = mixed_monitor(m['pstate'], m['second_pilot'], res)
+        print([(r['outs'], r['err']) for r in res], bad)
+        return not bad
     if i.get('bulk_states'):
         b = i['bulk_states']
         cfg = bf_cfg(rp)
